@@ -255,6 +255,7 @@ func (r *report) writeEvidence(id string, discharged int, failed []*OblResult, k
 	trusted := map[string]bool{}
 	var fns []string
 	abstractions := map[string]bool{}
+	inlinedAll := map[string]bool{}
 	for _, fx := range r.fxs {
 		fns = append(fns, strings.TrimPrefix(fx.pc.Path, modPath+"/")+":"+fx.key+" ("+map[Mode]string{ModeInt: "arith int", ModeBV: "arith bv64"}[fx.mode]+")")
 		for t := range fx.trusted {
@@ -262,6 +263,9 @@ func (r *report) writeEvidence(id string, discharged int, failed []*OblResult, k
 		}
 		for a := range fx.ar.abstract {
 			abstractions[a] = true
+		}
+		for c := range fx.inlined {
+			inlinedAll[c+" (into "+fx.key+")"] = true
 		}
 		if fx.fc.Trusted {
 			trusted["trusted (body not verified): "+fx.key] = true
@@ -332,6 +336,9 @@ func (r *report) writeEvidence(id string, discharged int, failed []*OblResult, k
 		"engine_errors":            nonNil(r.genErrs),
 		"vacuity_canaries":         map[string]any{"checked": countCanaries(r.fxs), "vacuous": len(r.vacuous)},
 		"contract_lines":           contractLines(r.fxs),
+	}
+	if len(inlinedAll) > 0 {
+		cov["inlined_callees_without_contract"] = sortedKeys(inlinedAll)
 	}
 	if len(r.bounded) > 0 {
 		cov["bounded"] = r.bounded
